@@ -102,10 +102,7 @@ class MosCollection:
         logger.info("Making MosCollection from %s MosReaders", len(mos_readers))
         self._mos_readers = mos_readers
         self._ro = None
-        try:
-            self._validate(allow_incomplete=allow_incomplete)
-        except AssertionError as e:
-            raise InvalidMosCollection(f"Failed to validate MosCollection: {e}") from e
+        self._validate(allow_incomplete=allow_incomplete)
 
     @classmethod
     def from_files(cls, mos_file_paths: List[Union[Path, str]], *, allow_incomplete: bool = False):
@@ -260,19 +257,25 @@ class MosCollection:
         Check a single roCreate is present, and if *allow_incomplete* is True,
         also check a single roDelete is present.
         """
+        def invalid(reason):
+            return InvalidMosCollection(f"Failed to validate MosCollection: {reason}")
+
+        if len(self.mos_readers) == 0:
+            raise invalid("no MOS files found")
         ro_id = self.mos_readers[0].ro_id
-        assert all(mr.ro_id == ro_id for mr in self.mos_readers), "Mixed RO IDs found"
+        if not all(mr.ro_id == ro_id for mr in self.mos_readers):
+            raise invalid("Mixed RO IDs found")
         ro_creates = [
             mr for mr in self.mos_readers if mr.mos_type == RunningOrder
         ]
-        assert len(ro_creates) == 1, f"{len(ro_creates)} roCreates found"
-        self._ro = ro_creates[0].mos_object
+        if len(ro_creates) != 1:
+            raise invalid(f"{len(ro_creates)} roCreates found")
         ro_deletes = [
             mr for mr in self.mos_readers if mr.mos_type == RunningOrderEnd
         ]
-        assert len(ro_deletes) < 2, f"{len(ro_deletes)} roDeletes found"
-        if not allow_incomplete:
-            assert len(ro_deletes) == 1, f"{len(ro_deletes)} roDeletes found"
+        if len(ro_deletes) > 1 or (not allow_incomplete and len(ro_deletes) != 1):
+            raise invalid(f"{len(ro_deletes)} roDeletes found")
+        self._ro = ro_creates[0].mos_object
         self._mos_readers = [
             mr for mr in self.mos_readers if mr.mos_type != RunningOrder
         ]
